@@ -19,7 +19,7 @@ func init() {
 	register(&CheckDef{
 		ID:    "C18",
 		Level: "fault_enumeration",
-		Rule: "the 'network' is the reader/writer argument: seeded values of all seven stream frame types (names and lease ids of any length and content, all integer ranges), position maps, and chunked bodies around the 65535-byte chunk limit are written through writers that split arbitrarily and read back through readers that deliver 1..k bytes per call (the schedule); then the encoding is cut at EVERY proper prefix (EOF at an arbitrary instant = the crash) and each prefix must yield an error - never a value, never a clean end-of-data; hostile length prefixes and random bytes are decoded under an allocation budget linear in the bytes supplied and a fake-clock deadline (no hang). evaluations = decode attempts; distinct = distinct (kind, size class, prefix class) tuples; non-trivial = run with at least 50 prefix cuts checked",
+		Rule:  "the 'network' is the reader/writer argument: seeded values of all seven stream frame types (names and lease ids of any length and content, all integer ranges), position maps, and chunked bodies around the 65535-byte chunk limit are written through writers that split arbitrarily and read back through readers that deliver 1..k bytes per call (the schedule); then the encoding is cut at EVERY proper prefix (EOF at an arbitrary instant = the crash) and each prefix must yield an error - never a value, never a clean end-of-data; hostile length prefixes and random bytes are decoded under an allocation budget linear in the bytes supplied and a fake-clock deadline (no hang). evaluations = decode attempts; distinct = distinct (kind, size class, prefix class) tuples; non-trivial = run with at least 50 prefix cuts checked",
 		Run:   runC18,
 		NonTrivial: func(r *Run) bool {
 			return r.Stats["c18.prefix.checked"] >= 50
